@@ -324,7 +324,7 @@ def _parse_einsum_string(einsum_str: str) -> dict:
             f"Each Einsum string must have exactly one equals sign."
         )
 
-    tensor_pattern = r"([A-Za-z_]\w*)\[([^\[\]]*)\]"
+    tensor_pattern = r"([A-Za-z_]\w*)\[([^\]]*)\]"
     full_pattern = rf"^{tensor_pattern}=(.+)$"
 
     match = re.match(full_pattern, einsum_str)
@@ -368,6 +368,10 @@ def _parse_projection(proj_str: str) -> dict | list:
     proj_str = proj_str.strip()
     if not proj_str:
         raise ValueError("Projection cannot be empty")
+    if "[" in proj_str or "]" in proj_str:
+        raise ValueError(
+            f"Invalid projection: {proj_str}. Projections may not contain brackets."
+        )
 
     parts = [p.strip() for p in proj_str.split(",")]
 
